@@ -9,6 +9,10 @@ CHECKS = {
          "Trusts the harness' set-cover reference; arithmetic far from uint64 overflow.",
          "bounded exhaustive enumeration of the real functions (explicit-state, complete within the stated box)", "3/C13"),
 }
+CHECKS["C08"] = ("E1-enum", "exploration",
+  "Bounded-exhaustive over operation sequences: every sequence of <=3 (thorough: 4 with --maxlen) store operations over 3 colliding keys, 2-3 values, ordinals {0,1,2} and delete_prefix, for every policy/value-type, from 3 pre-states, executed through the real host interface and Flush; every read at every ordinal compared with an independent reference model, and the delta list replayed on the pre-state.",
+  "Trusts refmodel.Store as the meaning of the policies; numeric alphabet restricted to exactly representable values; ordinals <= 3.",
+  "bounded exhaustive enumeration of operation sequences on the real store against a reference model", "3/C08")
 PENDING = {}
 def main():
     checks = []
